@@ -78,7 +78,7 @@ def build_table(p):
         c = rng.choice(feats)
         nan_cols.append(c)
         i = cols.index(c)
-        k = rng.choice([1, 1, 2, max(1, n // 3)])
+        k = rng.choice([1, 1, 2, max(1, n // 3), n])
         where = rng.choice(["first", "last", "random"])
         if where == "first":
             idx = list(range(k))
@@ -97,6 +97,14 @@ def build_table(p):
             for r in rows:
                 if r[i] is not None:
                     r[i] = int(round(r[i] * 10))
+    # feature names that merely resemble reserved names are ordinary features
+    if p.get("lookalike") and feats:
+        alike = ["Labels", "PeptideLen", "scannr2", "ProteinsCount", "ExpMassDiff", "filename_len", "ret_time2", "SpecIdNum",
+                 "Precursors", "CalcMassErr"]
+        rng.shuffle(alike)
+        ren = dict(zip(feats[: min(len(feats), 3)], alike))
+        cols = [ren.get(c, c) for c in cols]
+        nan_cols = [ren.get(c, c) for c in nan_cols]
     # rename (case) and permute
     if p["mangle"]:
         ren = {}
@@ -143,6 +151,7 @@ def make_scenario(seed):
         "level_cols": [c for c in ("ModifiedPeptide", "Precursor", "PeptideGroup") if rng.random() < 0.3],
         "nan_cols": rng.choice([0, 0, 1, 2, 3]),
         "int_feature": rng.random() < 0.35,
+        "lookalike": rng.random() < 0.3,
         "mangle": rng.random() < 0.6,
         "permute": rng.random() < 0.6,
         "malformed": None,
@@ -153,7 +162,7 @@ def make_scenario(seed):
     elif r < 0.2:
         p["malformed"] = "drop:" + rng.choice(["specid", "scannr", "peptide", "proteins", "label"])
     fmt = rng.choice(["pin", "pin", "parquet"])
-    n_rows_guess = p["n_spectra"] * 2
+    n_rows_guess = len(build_table(p)["rows"])  # exact
     workers = rng.choice([1, 2, 2, 3, 4, 8])
     kn = {
         "CHUNK_SIZE_COLUMNS_FOR_DROP_COLUMNS": rng.choice([1, 2, 3, 4, 5]) if rng.random() < 0.15 else rng.randint(6, 25),
@@ -288,7 +297,7 @@ def shrink_candidates(scn):
         c = clone(scn); c["max_workers"] = 1; c["sched"] = {"mode": "fifo"}; yield c
     if scn["format"] != "pin":
         c = clone(scn); c["format"] = "pin"; c["row_group"] = None; yield c
-    for k in ("mangle", "permute", "int_feature", "calcmass"):
+    for k in ("mangle", "permute", "int_feature", "calcmass", "lookalike"):
         if p.get(k):
             c = clone(scn); c["table"][k] = False; yield c
     if p["nan_cols"]:
